@@ -12,6 +12,10 @@ CLAIMS = {
    text='Static non-interference argument discharged over every library TU: no static-storage object is ever written (whole-program may-point-to over all stores incl. mem*/intrinsic/asm destinations), no hidden-state libc call, no pseudostack; so distinct objects share read-only memory only.',
    note=TRUST + 'Points-to is unsound only for pointers laundered through integers/unions/varargs; libc mem*/malloc/libm thread-safe; one thread per object.',
    technique='whole-program may-point-to + store classification over the typed AST (custom libTooling checker)'),
+ 'C10': dict(category='other',
+   text='Partial: for all five built-in ambisonics orders demixing x mixing = gain*I (exhaustive over the constant matrices) with consistent headers/sizes and matching order selection; the 8 Vorbis layouts are valid permutation layouts equal to RFC 7845; one self-delimiting predicate at all five multistream sites; (selector, lane, stride) routing pairs in encoder and decoder and the selector bodies; creation guards dominate allocation/layout stores. Bit-exact equality with stand-alone decoding is NOT decided.',
+   note=TRUST + 'RFC 7845 family-1 table transcribed into the checker.',
+   technique='table predicates on evaluated initialisers + edge-dominance guard facts + sibling agreement of call-site arguments'),
  'C17': dict(category='other',
    text='Partial: the data clauses are decided exhaustively (every iCDF table reaching a coder call is strictly decreasing/zero-terminated from every offset; PVQ U table equals the exact recurrence, V<2^32 and in-row for every reachable (N,K); pulse cache equals ceil(8 log2 V)-1 and is monotone; Laplace parameters within preconditions). Bijectivity of cwrsi/icwrs and Laplace tiling are NOT decided.',
    note=TRUST + 'Python port of log2_frac as generator oracle for the pulse cache.',
